@@ -3,7 +3,7 @@
 import json,os,re
 rows=[]
 tot=det=0
-for k in sorted(os.listdir('/verif/seeded')):
+for k in sorted(os.listdir('/verif/seeded'), key=lambda n:(n.split('-')[0], int(n.split('-')[1]) if n.split('-')[1].isdigit() else 0)):
     p='/verif/seeded/%s/meta.json'%k
     if not os.path.exists(p): continue
     m=json.load(open(p)); tot+=1
@@ -12,8 +12,9 @@ for k in sorted(os.listdir('/verif/seeded')):
     sig=run['signatures'].split(';')[0] if run['signatures'] else '(not detected)'
     if len(sig)>64: sig=sig[:64]+'…'
     note=' †' if 'history' in m else ''
+    if not m.get('detected'): note=' ✗'
     rows.append('| %s%s | %s | %s | `%s` |'%(k,note,m.get('change','?'),m.get('needs_to_manifest','?'),sig))
-table='<!-- SEEDED-TABLE-BEGIN -->\n%d seeded defects, %d detected by the quick tier of their property\'s check († = missed or flaky on the first pass; the check was strengthened, see `history` in the seed\'s meta.json).\n\n| seed | change | needs, to manifest | first signature reported |\n|---|---|---|---|\n'%(tot,det)+'\n'.join(rows)+'\n<!-- SEEDED-TABLE-END -->'
+table='<!-- SEEDED-TABLE-BEGIN -->\n%d seeded defects, %d detected by the quick tier of their property\'s check († = missed or flaky on the first pass; the check was strengthened, see `history` in the seed\'s meta.json; ✗ = not detected by its property\'s check).\n\n| seed | change | needs, to manifest | first signature reported |\n|---|---|---|---|\n'%(tot,det)+'\n'.join(rows)+'\n<!-- SEEDED-TABLE-END -->'
 d=open('/verif/DESIGN.md').read()
 if 'SEEDED-TABLE-BEGIN' in d:
     d=re.sub(r'<!-- SEEDED-TABLE-BEGIN -->.*<!-- SEEDED-TABLE-END -->',lambda m:table,d,flags=re.S)
